@@ -40,7 +40,7 @@ func schedCase(id int, dir string, c *Case, args []string, run *Run) {
 		for _, p := range procsList {
 			for rep := 0; rep < reps; rep++ {
 				for _, format := range []string{"text", "csv"} {
-					env := []string{"GOMAXPROCS=" + p, "GORACE=halt_on_error=0 exitcode=66"}
+					env := []string{"GOMAXPROCS=" + p, "GORACE=halt_on_error=0 exitcode=66 atexit_sleep_ms=0"}
 					out, errb, code := runBinary(bin, dir, env, append([]string{"-format", format}, args...)...)
 					runs++
 					if isRace && (code == 66 || bytes.Contains(errb, []byte("DATA RACE"))) {
